@@ -340,6 +340,52 @@ func (s *Sim) IterStep(i int) {
 			}
 		}
 		s.iterNext(what+" Next(fresh)", it, s.DB.ReadTxn(), t.committed)
+	case x < 78 && len(t.committed.Objs) > 0:
+		// Directed sequence at one virtual instant (the rate-limited collector cannot run in between): delete X while an
+		// iterator is open, close every iterator of the table, re-insert X, open a new iterator, delete X again.
+		id := []byte(sortedKeys(t.committed.Objs)[s.Rng.IntN(len(t.committed.Objs))])
+		s.Logf("%s macro: delete %x, close all iterators, re-insert, new iterator, delete again", what, id)
+		one := func(kind int) {
+			if s.Failed {
+				return
+			}
+			s.forceSet, s.forced = []*simTable{t}, &forcedOp{kind, id}
+			s.RunTxn(7000 + i*4 + kind%4)
+			s.forceSet, s.forced = nil, nil
+		}
+		one(45)
+		for _, it := range t.iters {
+			if it.committed {
+				it.it.Close()
+			}
+		}
+		keep := t.iters[:0]
+		for _, it := range t.iters {
+			if !it.committed {
+				keep = append(keep, it)
+			}
+		}
+		t.iters = keep
+		one(0)
+		if !s.Failed {
+			wtxn := s.DB.WriteTxn(t.tbl)
+			s.open = wtxn
+			it, err := t.tbl.Changes(wtxn)
+			if err != nil {
+				wtxn.Abort()
+				s.open = nil
+				s.Violate("changes", "changes-error", "%s: Changes returned %v", what, err)
+				return
+			}
+			s.iterSeq++
+			si := &simIter{name: fmt.Sprintf("%s#%d", t.name, s.iterSeq), it: it, table: t, creationRev: t.committed.Rev, createdIn: what,
+				replay: map[string]Obs{}, gotDelete: map[string][]uint64{}, committed: true, settledBefore: t.settled}
+			wtxn.Commit()
+			s.open = nil
+			t.iters = append(t.iters, si)
+			t.settled = false
+		}
+		one(45)
 	case x < 80 && len(s.Tabs) > 1:
 		// Next with a write transaction on ANOTHER table that was opened before a later commit to the iterated table:
 		// only what was committed when that write transaction was created may be delivered.
